@@ -241,6 +241,7 @@ func (ro *RedisOutput) rdbParseOptions() []rdb.RdbParseOption {
 	opts := []rdb.RdbParseOption{
 		rdb.WithTargetRedisVersion(ro.cfg.Redis.Version),
 		rdb.WithFunctionExists(ro.cfg.FunctionExists),
+		rdb.WithStreamIdleConsumers(),
 	}
 	if ro.cfg.ModuleAuxPolicy == config.ModuleAuxPolicyFail {
 		opts = append(opts, rdb.WithFailOnModuleAux())
